@@ -8,7 +8,7 @@ sid = '%s-%s' % (prop, n)
 dst = os.path.join(HERE, 'seeded', sid)
 os.makedirs(dst, exist_ok=True)
 for f in ('patch.diff', 'demo.c', 'notes.txt', 'confirm.txt'):
-    if os.path.exists(os.path.join(src, f)):
+    if os.path.exists(os.path.join(src, f)) and os.path.abspath(src) != os.path.abspath(dst):
         shutil.copy(os.path.join(src, f), os.path.join(dst, f))
 claimed = [c['property_id'] for c in json.load(open(os.path.join(HERE, 'MANIFEST.json')))['checks']]
 d = tempfile.mkdtemp(prefix='seedrun_', dir='/tmp')
